@@ -25,6 +25,20 @@ from ..common import Check, Model
 
 CTL = "01:145038"
 ZONES = ["00", "01", "02"]
+ALL = ZONES + ["HW"]       # ... and the stored hot water, whose schedule goes by index 00 too (type 23 where a zone's is 20)
+
+
+def zi(z: str) -> str:
+    return "00" if z == "HW" else z
+
+
+def zt(z: str) -> str:
+    return "23" if z == "HW" else "20"
+
+
+def widx(pay: str) -> str:
+    """zone of a 0404 payload"""
+    return "HW" if pay[2:4] == "23" else pay[:2]
 
 
 def make_schedule(rnd: random.Random, zone_idx: str, n_sp: int) -> dict:
@@ -32,8 +46,10 @@ def make_schedule(rnd: random.Random, zone_idx: str, n_sp: int) -> dict:
     for dow in range(7):
         times = sorted(rnd.sample(range(0, 144), n_sp))
         sps = [{"time_of_day": f"{(t * 10) // 60:02d}:{(t * 10) % 60:02d}", "heat_setpoint": rnd.randrange(10, 70) * 0.5} for t in times]
+        if zone_idx == "HW":
+            sps = [{"time_of_day": sp["time_of_day"], "enabled": rnd.random() < 0.5} for sp in sps]
         days.append({"day_of_week": dow, "switchpoints": sps})
-    return {"zone_idx": zone_idx, "schedule": days}
+    return {"zone_idx": zi(zone_idx), "schedule": days}
 
 
 class Controller:
@@ -47,7 +63,7 @@ class Controller:
         self.f2s, self.s2f = fragz_to_full_sched, full_sched_to_fragz
         self.counter = 0x0100
         self.frags: dict[str, list[str]] = {}
-        self.history: dict[str, list[tuple[float, int, list]]] = {z: [] for z in ZONES}     # (time, counter, inner schedule)
+        self.history: dict[str, list[tuple[float, int, list]]] = {z: [] for z in ALL}     # (time, counter, inner schedule)
         self.n_exch = 0
         self.lose: dict[int, int] = {}         # exchange number -> how many times its reply is lost
         self.bump_after: dict[int, str] = {}   # exchange number -> zone whose schedule changes right after it
@@ -80,7 +96,7 @@ class Controller:
             p = f"0005{self.counter:04X}"
             reply = f"RP --- {CTL} {src} --:------ 0006 {len(p) // 2:03d} {p}"
         elif verb == "RQ":
-            idx, num = pay[:2], int(pay[10:12], 16)
+            idx, num = widx(pay), int(pay[10:12], 16)
             frags = self.frags.get(idx)
             if frags is None or num > len(frags):
                 # a fragment that does not exist (the schedule shrank meanwhile): this fixture stays silent
@@ -89,12 +105,12 @@ class Controller:
                 return []
             else:
                 frag = frags[num - 1]
-                p = f"{idx}200008{len(frag) // 2:02X}{num:02X}{len(frags):02X}{frag}"
+                p = f"{zi(idx)}{zt(idx)}0008{len(frag) // 2:02X}{num:02X}{len(frags):02X}{frag}"
                 reply = f"RP --- {CTL} {src} --:------ 0404 {len(p) // 2:03d} {p}"
         else:
             # W|0404: a fragment of a new schedule; the schedule is taken (and the change counter stepped) when the last
             # fragment of the set is in; every fragment is acknowledged with an I|0404 carrying its index and number
-            idx, num, total, frag = pay[:2], int(pay[10:12], 16), int(pay[12:14], 16), pay[14:]
+            idx, num, total, frag = widx(pay), int(pay[10:12], 16), int(pay[12:14], 16), pay[14:]
             buf = self.wbuf.setdefault(idx, {})
             if num == 1:
                 buf.clear()
@@ -104,7 +120,7 @@ class Controller:
                 self.counter += 1
                 self.history[idx].append((self.loop.time(), self.counter, self.f2s(self.frags[idx])["schedule"]))
                 buf.clear()
-            p = f"{idx}200008{len(frag) // 2:02X}{num:02X}{total:02X}"
+            p = f"{zi(idx)}{zt(idx)}0008{len(frag) // 2:02X}{num:02X}{total:02X}"
             reply = f" I --- {CTL} {src} --:------ 0404 {len(p) // 2:03d} {p}"
         self.log.append((self.loop.time(), k, "reply", frame[37:60], self.counter))
         del self.seen[key]                     # a later identical request is a new exchange
@@ -143,7 +159,7 @@ class XferLog:
             code = str(cmd.code)
             if code not in ("0404", "0006"):
                 return await o_send(cmd, **kw)
-            idx = cmd.payload[:2] if code == "0404" else "--"
+            idx = widx(cmd.payload) if code == "0404" else "--"
             if code == "0404" and str(cmd.verb) == " W":
                 try:
                     pkt = await o_send(cmd, **kw)
@@ -165,7 +181,9 @@ class XferLog:
                 raise
             if code == "0404":
                 p = pkt.payload
-                if pkt.dst.id not in (gwrig.GWY_ID, gwrig.HGI_ID):
+                if widx(p) != idx:
+                    log.rows.append(("other_schedules_reply_taken", code, idx, str(pkt)[:60]))
+                elif pkt.dst.id not in (gwrig.GWY_ID, gwrig.HGI_ID):
                     log.rows.append(("foreign_reply_taken", code, idx, str(pkt)[:60]))
                 num, total = int(p[10:12], 16), int(p[12:14], 16)
                 frag = p[14:]
@@ -185,7 +203,7 @@ class XferLog:
 def ctl_version_of(ctl: Controller, idx: str, num: int, frag: str):
     """The (latest) controller version of zone idx whose fragment `num` is `frag`."""
     for _t, counter, inner in reversed(ctl.history.get(idx, [])):
-        frs = ctl.s2f({"zone_idx": idx, "schedule": inner})
+        frs = ctl.s2f({"zone_idx": zi(idx), "schedule": inner})
         if num <= len(frs) and frs[num - 1] == frag:
             return counter
     return -1
@@ -193,14 +211,15 @@ def ctl_version_of(ctl: Controller, idx: str, num: int, frag: str):
 
 async def episode(loop, script, rnd) -> dict:
     ctl = Controller(loop, rnd)
-    schema = {"main_tcs": CTL, CTL: {"zones": {z: {"class": "radiator_valve"} for z in ZONES}}}
+    schema = {"main_tcs": CTL, CTL: {"zones": {z: {"class": "radiator_valve"} for z in ZONES}, "stored_hotwater": {"sensor": "07:045960"}}}
     rig = gwrig.Rig(loop, schema=schema, responder=ctl.respond)
     await rig.start()
     gwy = rig.gwy
     tcs = gwy.system_by_id[CTL]
     zone = {z.idx: z for z in tcs.zones}
-    for z in ZONES:
-        ctl.put(z, script["sizes"][z])
+    zone["HW"] = tcs.dhw
+    for z in ALL:
+        ctl.put(z, script["sizes"].get(z, 2))
     xlog = XferLog()
     xlog.install(tcs, gwy, ctl)
     ctl.lose = dict(script["lose"])
@@ -242,12 +261,22 @@ async def episode(loop, script, rnd) -> dict:
         hist = ctl.history[z]
         if len(hist) < 2:
             return
-        frs = ctl.s2f({"zone_idx": z, "schedule": hist[-2][2]})
+        frs = ctl.s2f({"zone_idx": zi(z), "schedule": hist[-2][2]})
         if num > len(frs):
             return
         frag = frs[num - 1]
-        p = f"{z}200008{len(frag) // 2:02X}{num:02X}{len(frs):02X}{frag}"
+        p = f"{zi(z)}{zt(z)}0008{len(frag) // 2:02X}{num:02X}{len(frs):02X}{frag}"
         rig.transport.inject(f"RP --- {CTL} {dst} --:------ 0404 {len(p) // 2:03d} {p}")
+
+    def sibling(z, num, dst):
+        """a copy of a fragment of another schedule's *present* version (the controller answering someone else)"""
+        frs = ctl.frags[z]
+        if num <= len(frs):
+            p = f"{zi(z)}{zt(z)}0008{len(frs[num - 1]) // 2:02X}{num:02X}{len(frs):02X}{frs[num - 1]}"
+            rig.transport.inject(f"RP --- {CTL} {dst} --:------ 0404 {len(p) // 2:03d} {p}")
+
+    for t, z, num, dst in script.get("sibling", []):
+        loop.call_later(t, sibling, z, num, dst)
 
     for t, z, num, dst in script.get("replay_old", []):
         loop.call_later(t, replay_old, z, num, dst)
@@ -284,9 +313,9 @@ async def episode(loop, script, rnd) -> dict:
 
 
 def gen_script(rnd: random.Random) -> dict:
-    sizes = {z: rnd.choice((2, 4, 6)) for z in ZONES}
+    sizes = {z: rnd.choice((2, 4, 6)) for z in ALL}
     n_calls = rnd.choice((1, 1, 2, 3))
-    zs = rnd.sample(ZONES, n_calls)
+    zs = rnd.sample(ALL, n_calls)
     calls = [{"zone": z, "at": rnd.choice((0.0, 0.0, 0.01, 0.3, 2.0)), "force_io": rnd.random() < 0.7,
               "timeout": rnd.choice((15, 15, 15, 0.05, 0.3, 1.0, 2.6, 6.0, 40.0))} for z in zs]
     lose = {}
@@ -299,6 +328,15 @@ def gen_script(rnd: random.Random) -> dict:
     for _ in range(rnd.randrange(0, 3)):
         z = rnd.choice(ZONES)
         overheard.append((rnd.choice((0.0, 0.05, 0.2, 1.0)), f"RP --- {CTL} 18:999999 --:------ 0404 012 {z}20000805" + rnd.choice(("0103", "0203", "0101")) + "6899AB00CD"))
+    if rnd.random() < 0.12:
+        # directed: the hot water's schedule and zone 00's go by the same index on the wire; while the one is fetched, the
+        # controller's answers about the other (to this gateway's earlier request, to another gateway) are heard
+        a, b = rnd.choice((("HW", "00"), ("00", "HW"), ("HW", "01")))
+        sizes[a] = sizes[b] = rnd.choice((1, 1, 2))
+        calls = [{"zone": a, "at": 0.0, "force_io": True, "timeout": 15}]
+        t0 = rnd.uniform(0.0, 0.01)
+        sib = [(round(t0 + 0.007 * k, 4), b, 1 + (k % 2 if sizes[b] > 1 else 0), rnd.choice((gwrig.GWY_ID, "18:999999"))) for k in range(rnd.choice((12, 40)))]
+        return {"sizes": sizes, "calls": calls, "lose": {}, "bump_after": {}, "overheard": [], "sibling": sib}
     if rnd.random() < 0.2:
         # directed: the zone is fetched, its schedule changes on the controller, it is fetched again - and copies of fragments of
         # the *old* schedule (delayed duplicates, replies to another gateway) arrive at moments spread over the re-fetch
@@ -374,6 +412,10 @@ class _Tagged:
 
 
 def score(chk: Check, script, o, rep) -> None:
+    for r in o["rows"]:
+        if r[0] == "other_schedules_reply_taken":
+            chk.violation("c18.other_schedules_reply_taken", f"the request for a fragment of {r[2]}'s schedule was answered with a fragment of another schedule: {r[3]}", rep)
+            break
     if any(r[0] == "foreign_reply_taken" for r in o["rows"]):
         chk.count("episodes.foreign_reply_taken_as_reply")
         chk = _Tagged(chk, ".foreign-reply-taken")
